@@ -464,6 +464,9 @@ def core():
         variant("H"), variant("HelpMe"), variant("S", name="s"),
         variant("Cjk", name="中文", args=[arg("x", "str", long="名", short="字", optional=True)]),
         variant("Smile", name="😀x"),
+        # field identifiers outside ASCII: generated short = first scalar value, generated long = the identifier
+        variant("Uni", [arg("ширина", "u8", short=True, long=True, optional=True), arg("élan", "bool", short=True),
+                        arg("名前", "str", short=True, optional=True), arg("ølen_max", "u8", long=True, optional=True)]),
     ]))
     E.append(command("hid", [variant("Secret", [arg("k", "u8", optional=True)]), variant("Stash")], title="Hidden"))
     E.append(command("base", [variant("Hello", [arg("name", "str", optional=True, doc=[" To whom to say hello"])], doc=[" Say hello"]),
